@@ -22,6 +22,8 @@ class SymDict:
     def pyvc_getattr(self, interp, name):
         if name == "items":
             return lambda: SymItems(self)
+        if name == "values":
+            return lambda: SymValues(self)
         raise Undecided(f"dict.{name} on a symbolic dict")
 
 
@@ -34,6 +36,22 @@ class SymItems:
             raise Undecided("sorted(items, key=...)")
         theory_np._use("sorted(dict.items()) of a {contest: weight} dict: items in key order = contest order (get_dummies sorts its columns)")
         return SymPairs(self.d)
+
+
+class SymValues:
+    """dict.values(): sorted(...) orders the weights by their own size -- some permutation of the contests (nothing ties
+    position k to contest k any more)"""
+
+    def __init__(self, d):
+        self.d = d
+
+    def pyvc_sorted(self, key=None, reverse=False):
+        theory_np._use("sorted(dict.values()): the values in increasing order = the contests' values under SOME permutation")
+        d = self.d
+        perm = z3.Function(fresh_name("value_order"), z3.IntSort(), z3.IntSort())
+        u = d.space.u
+        theory_np.CUR.ctx.assume(z3.And(perm(u) >= 0, perm(u) < d.n))
+        return SymSeq(d.space, z3.substitute(d.value, (u, perm(u))), "sorted_dict_values")
 
 
 class SymPairs:
